@@ -109,6 +109,45 @@ def run(ctx) -> None:
                 rep.bad("C20.R5", f"{f.qname}:internal-consumers-by-outer-name", f"{f.module.rel}:{n.lineno}", "inner nodes of an expanded container are selected by comparing the parent-scope value name with inner input names; the flat graph carries no rename map, so under wrapper.with_inputs(u='v') the edge goes to the wrong inner node (or none)")
     if n_cons < 2:
         raise AnalysisError(f"only {n_cons} edge functions use the consumers relation")
+    # the same for the values an edge carries: endpoints are resolved per value, never from one picked value
+    RESOLVERS = {"_resolve_data_source", "_resolve_data_targets", "find_internal_producer_for_output", "nearest_visible", "build_output_to_producer_map"}
+    n_vals = 0
+    for f in edge_funcs:
+        vnames: set[str] = set()
+        for _ in range(3):
+            for n in walk_local(f.node):
+                if isinstance(n, ast.Assign) and len(n.targets) == 1 and isinstance(n.targets[0], ast.Name):
+                    v = n.value
+                    base = isinstance(v, ast.Call) and isinstance(v.func, ast.Attribute) and v.func.attr == "get" and v.args and isinstance(v.args[0], ast.Constant) and v.args[0].value == "value_names"
+                    base = base or (isinstance(v, ast.Subscript) and isinstance(v.slice, ast.Constant) and v.slice.value == "value_names")
+                    via = isinstance(v, (ast.IfExp, ast.BoolOp)) and any(isinstance(x, ast.Name) and x.id in vnames for x in ast.walk(v)) and not any(isinstance(x, ast.Subscript) for x in ast.walk(v))
+                    alias = isinstance(v, ast.Name) and v.id in vnames
+                    if base or via or alias:
+                        vnames.add(n.targets[0].id)
+        if not vnames:
+            continue
+        n_vals += 1
+        picked_exprs = [n for n in walk_local(f.node) if isinstance(n, ast.Subscript) and isinstance(n.ctx, ast.Load) and isinstance(n.value, ast.Name) and n.value.id in vnames and isinstance(n.slice, ast.Constant) and isinstance(n.slice.value, int)]
+        picked_names = set()
+        for n in walk_local(f.node):
+            if isinstance(n, ast.Assign) and len(n.targets) == 1 and isinstance(n.targets[0], ast.Name) and any(x in picked_exprs for x in ast.walk(n.value)):
+                # a name that is *only* ever bound from a picked value (loop variables over the list are bound by the loop, not by Assign)
+                picked_names.add(n.targets[0].id)
+        loop_bound = {x.id for n in walk_local(f.node) if isinstance(n, (ast.For, ast.comprehension)) for x in ast.walk(n.target) if isinstance(x, ast.Name)}
+        bad = []
+        for c in db.calls_in(f):
+            nm = (dotted(c.func) or "").split(".")[-1]
+            is_res = nm in RESOLVERS or (isinstance(c.func, ast.Attribute) and c.func.attr == "get" and ("output_to_producer" in src(c.func.value) or "param_to_consumer" in src(c.func.value)))
+            if not is_res:
+                continue
+            for a in list(c.args) + [k.value for k in c.keywords]:
+                if any(x in picked_exprs for x in ast.walk(a)):
+                    bad.append(c)
+                elif isinstance(a, ast.Name) and a.id in picked_names and a.id not in loop_bound:
+                    bad.append(c)
+        rep.add("C20.R1", f"{f.qname}:values", not bad, f"{f.module.rel}:{bad[0].lineno if bad else f.lineno}", f"edge endpoints are resolved per carried value ({sorted(vnames)} only iterated for resolution)" if not bad else f"'{src(bad[0])[:80]}' resolves an endpoint from one picked value of a multi-value edge: values produced by different inner nodes are all drawn from the first one's producer")
+    if n_vals < 2:
+        raise AnalysisError(f"only {n_vals} edge functions read the values an edge carries")
     fip = db.maybe_func("viz.renderer.scope.find_internal_producer_for_output")
     if fip is not None:
         fuzzy = [n for n in walk_local(fip.node) if isinstance(n, ast.BoolOp) and isinstance(n.op, ast.Or) and all(isinstance(v, ast.Compare) and isinstance(v.ops[0], ast.In) for v in n.values)]
@@ -392,6 +431,7 @@ MM = "src/hypergraph/viz/mermaid.py"
 PC = "src/hypergraph/viz/renderer/precompute.py"
 CORE = "src/hypergraph/graph/core.py"
 VARIANTS = [
+    Variant("mermaid-source-from-first-value", MM, replace_once("        for value_name in values:\n            actual_source = _resolve_data_source(\n                source,\n                value_name,", "        for value_name in values:\n            actual_source = _resolve_data_source(\n                source,\n                values[0],"), {"C20.R1"}),
     Variant("descendant-by-prefix", "src/hypergraph/viz/_common.py", replace_once("    current = node_id\n    while current is not None:\n        parent = get_parent(current, flat_graph)\n        if parent == ancestor_id:\n            return True\n        current = parent\n    return False", "    return node_id != ancestor_id and node_id.startswith(ancestor_id)"), {"C20.R8"}),
     Variant("twin-descendant-by-separator-prefix", "src/hypergraph/viz/_common.py", replace_once("    current = node_id\n    while current is not None:\n        parent = get_parent(current, flat_graph)\n        if parent == ancestor_id:\n            return True\n        current = parent\n    return False", "    return node_id.startswith(ancestor_id + \"/\")"), set()),
     Variant("descendant-one-level-only", "src/hypergraph/viz/_common.py", replace_once("    current = node_id\n    while current is not None:\n        parent = get_parent(current, flat_graph)\n        if parent == ancestor_id:\n            return True\n        current = parent\n    return False", "    parent = get_parent(node_id, flat_graph)\n    if parent == ancestor_id:\n        return True\n    return False"), {"C20.R8"}),
